@@ -36,6 +36,12 @@ def key(i):
     return (i["ec"], i["em"], i["tc"], i.get("seq"))
 
 
+def run_keys(a):
+    """identifiers written by a StoreRun step / line"""
+    st = a["st"]
+    return [(st["ec"], st["em"], st["tc"], q) for lo, hi in a["ranges"] for q in range(lo, hi + 1)]
+
+
 # ------------------------------------------------------------------ scenario sources
 
 def sweep(steps, rnd, limit=16):
@@ -238,6 +244,71 @@ def add_backfills(steps, rnd, count):
     return steps
 
 
+def ranges_of(seqs):
+    out, seqs = [], sorted(seqs)
+    for q in seqs:
+        if out and out[-1][1] == q - 1:
+            out[-1][1] = q
+        else:
+            out.append([q, q])
+    return out
+
+
+def large_history(rnd):
+    """A LARGE store: one stream of 100..1000 entries with gaps, and equally large neighbouring streams that sort after
+    and before it in the key space (the same emitter to a higher / lower / prefix-related target chain, the neighbouring
+    emitter address, the same address on another chain, the governance stream); every stream's gaps asked through db and
+    the admin service, with lookups and batches in between.  The gap report of a stream is a function of that stream only."""
+    ec, em = rnd.choice([(1, "g"), (1, "h"), (10, "g"), (2, "h")])
+    tc = rnd.choice([2, 4, 10, 25])
+    def seqset(lo_n, hi_n, gappy):
+        top = rnd.randint(lo_n, hi_n)
+        s = set(range(0, top))
+        if gappy:
+            for _ in range(rnd.randint(2, 8)):
+                a = rnd.randrange(top)
+                s -= set(range(a, min(top, a + rnd.randint(1, 12))))
+            s.add(top)                      # the highest sequence is present
+        return s
+    streams = [((ec, em, tc), seqset(100, 999, True))]
+    neigh = [(ec, em, tc + 1), (ec, em, tc * 10 + 5), (ec, em, max(0, tc - 1)), (ec, "gx" if em == "g" else "k", tc),
+             (ec * 10 if ec < 1000 else 7, em, tc), GOV + (tc,), GOV + (0,)]
+    rnd.shuffle(neigh)
+    for st in neigh[:rnd.randint(3, 5)]:
+        if st not in [x[0] for x in streams]:
+            streams.append((st, seqset(100, 600, rnd.random() < 0.5)))
+    order = list(streams)
+    rnd.shuffle(order)
+    steps = []
+    for (st, seqs) in order:
+        steps.append({"ev": "StoreRun", "a": {"st": ST(*st), "tag": rnd.choice(["v1", "v2", "v3"]), "ranges": ranges_of(seqs)}})
+        if rnd.random() < 0.4:
+            steps.append({"ev": "Gap", "a": {"st": ST(*streams[0][0])}})
+    for (st, seqs) in streams:
+        steps.append({"ev": "Gap", "a": {"st": ST(*st)}})
+    allseq = sorted(streams[0][1])
+    for _ in range(4):
+        st, seqs = rnd.choice(streams)
+        q = rnd.choice(sorted(seqs))
+        steps.append({"ev": "Get", "a": {"id": ID(st[0], st[1], st[2], q)}})
+        steps.append({"ev": "Get", "a": {"id": ID(st[0], st[1], st[2] + 1, q)}})
+    req = rnd.sample(range(0, 1000), 20)
+    steps.append({"ev": "NonGovBatch", "a": {"st": ST(*streams[0][0]), "seqs": req}})
+    steps.append({"ev": "GovBatch", "a": {"seqs": req}})
+    # a few single stores into the gaps, then the gaps again
+    st0, s0 = streams[0]
+    holes = [q for q in range(max(s0)) if q not in s0]
+    for q in rnd.sample(holes, min(len(holes), 3)):
+        steps.append({"ev": "Store", "a": {"v": {"id": ID(st0[0], st0[1], st0[2], q), "tag": "v4"}}})
+    steps.append({"ev": "Gap", "a": {"st": ST(*st0)}})
+    return {"steps": steps, "src": "large"}
+
+
+def gen_large(seed_, n):
+    rnd = random.Random("store-large-%d" % seed_)
+    return [large_history(rnd) for _ in range(n)]
+
+
 def gen_scenarios(seed_, n):
     rnd = random.Random("store-%d" % seed_)
     res = [random_history(rnd) for _ in range(n)]
@@ -297,11 +368,19 @@ def crash_c16(work, dirs, cycles, max_stores, max_run_ms):
         lines += ls
         for k, v in st.items():
             stats[k] = max(stats.get(k, 0), v) if k.startswith("max_") else stats.get(k, 0) + v
-    # deterministic probe of the zero-length-log-file crash artefact (judged in chk_store.run_c16)
-    rc, out = vlib.run_test_binary(binary, "^TestVerifStoreProbeEmptyWal$", work, timeout=300, extra_args=["-test.v"],
-                                   env={"VERIF_C16_PROBE": "1", "TMPDIR": tmp})
+    # deterministic kill points inside Open: one trace per torn-file state (harness: TestVerifStoreProbeTornFiles)
+    ptr = os.path.join(work, "trace_c16_probe.ndjson")
+    rc, out = vlib.run_test_binary(binary, "^TestVerifStoreProbeTornFiles$", work, timeout=600, extra_args=["-test.v"],
+                                   env={"VERIF_C16_PROBE": "1", "VERIF_TRACE": ptr, "TMPDIR": tmp})
     m = re.search(r"^VERIF-PROBE (\{.*\})$", out, re.M)
-    stats["probe_zero_length_log_file"] = json.loads(m.group(1)) if m else {"probe": "did not run"}
+    if rc != 0 or not m:
+        raise vlib.Broken("torn-file probe did not complete (rc=%d):\n%s" % (rc, out[-2000:]))
+    stats["probe_torn_files"] = json.loads(m.group(1))
+    plines = vlib.read_ndjson(ptr)
+    nmax = max([ln["n"] for ln in lines] or [0])
+    for ln in plines:                     # keep (t, n) unique across the processes' traces
+        ln["n"] += nmax
+    lines += plines
     return lines, stats, __import__("time").time() - t0
 
 
@@ -403,6 +482,9 @@ def stored_before(lines_of_trace, n):
         if ln["ev"] == "Store":
             v = ln["a"]["v"]
             cur[key(v["id"])] = v["tag"]
+        elif ln["ev"] == "StoreRun":
+            for k in run_keys(ln["a"]):
+                cur[k] = ln["a"]["tag"]
         elif ln["ev"] == "GapBackfill":
             for v in ln["a"].get("fills", []):
                 cur[key(v["id"])] = v["tag"]
@@ -507,6 +589,14 @@ def classify_c12(rej, line, trace_lines):
 
 def classify_c16(rej, line):
     ev = line["ev"]
+    if ev == "Reopen" and line.get("a", {}).get("mode") == "emulated-torn-file":
+        a = line["a"]
+        ext = os.path.splitext(a["file"])[1]
+        what = {".mem": "memtable-wal", ".vlog": "value-log"}.get(ext, "file-created-by-Open:" + a["file"])
+        return "Reopen/probe/failed:%s-%s" % (a["variant"], what), {
+            "err": line.get("s", {}).get("err"),
+            "how": "on a copy of a cleanly closed store that holds acknowledged VAAs, make %s %s (the state a SIGKILL between the "
+                   "creation and the first write of that file inside db.Open leaves) and call db.Open" % (a["file"], a["variant"])}
     if ev == "Reopen":
         err = line.get("s", {}).get("err") or ""
         if "Create a new file" in err:          # badger/ristretto: a zero-length log file left by a kill between its creation and its sizing
